@@ -365,7 +365,7 @@ class Report:
         self.n_replay = 0
 
     def _replay_path(self):
-        d = os.path.join(VERIF, "replays", self.pid)
+        d = os.path.join(os.environ.get("VERIF_REPLAY_DIR") or os.path.join(VERIF, "replays"), self.pid)
         os.makedirs(d, exist_ok=True)
         self.n_replay += 1
         return os.path.join(d, f"{self.tier}_{self.seed}_{self.n_replay}.json")
@@ -444,7 +444,7 @@ def source_hashes(funcs):
 def drifted(pid_funcs):
     """Compare the working tree's function hashes with modelmap.json; returns list of changed specs."""
     path = os.path.join(VERIF, "modelmap.json")
-    if not os.path.exists(path):
+    if not os.path.exists(path) or os.environ.get("VERIF_NO_DRIFT"):
         return []
     ref = json.load(open(path))
     cur = source_hashes(pid_funcs)
